@@ -6,19 +6,19 @@ PROPS = {
     "C01": {
         "level": "fault_enumeration",
         "tests": [
-            {"name": "TestC01", "quick": 480, "thorough": 6000},
+            {"name": "TestC01", "quick": 480, "thorough": 30000},
         ],
     },
     "C02": {
         "level": "exploration",
         "tests": [
-            {"name": "TestC02", "quick": 640, "thorough": 5000},
+            {"name": "TestC02", "quick": 640, "thorough": 40000},
         ],
     },
     "C03": {
         "level": "fault_enumeration",
         "tests": [
-            {"name": "TestC03", "quick": 400, "thorough": 4000},
+            {"name": "TestC03", "quick": 400, "thorough": 16000},
         ],
     },
     "C10": {
@@ -30,42 +30,42 @@ PROPS = {
     "C12": {
         "level": "exploration",
         "tests": [
-            {"name": "TestC12", "quick": 500, "thorough": 8000},
+            {"name": "TestC12", "quick": 500, "thorough": 40000},
         ],
     },
     "C06": {
         "level": "exploration",
         "tests": [
-            {"name": "TestC06", "quick": 1500, "thorough": 40000},
+            {"name": "TestC06", "quick": 1500, "thorough": 100000},
             # the real command tree; every NewRootCmd call registers one more cobra initializer in the process, so the
             # cases are spread over many short-lived processes
-            {"name": "TestC06CLI", "quick": 320, "thorough": 4800, "shards_quick": 16},
+            {"name": "TestC06CLI", "quick": 320, "thorough": 9600, "shards_quick": 16},
         ],
     },
     "C07": {
         "level": "exploration",
         "tests": [
-            {"name": "TestC07", "quick": 1000, "thorough": 25000},
+            {"name": "TestC07", "quick": 1000, "thorough": 60000},
         ],
     },
     "C13": {
         "level": "exploration",
         "tests": [
-            {"name": "TestC13", "quick": 1200, "thorough": 12000},
+            {"name": "TestC13", "quick": 1200, "thorough": 80000},
         ],
     },
     "C04": {
         "level": "exploration",
         "tests": [
-            {"name": "TestC04A", "quick": 8000, "thorough": 150000, "shards_quick": 6},
-            {"name": "TestC04B", "quick": 12000, "thorough": 200000, "shards_quick": 5},
-            {"name": "TestC04C", "quick": 8000, "thorough": 150000, "shards_quick": 5},
+            {"name": "TestC04A", "quick": 8000, "thorough": 600000, "shards_quick": 6},
+            {"name": "TestC04B", "quick": 12000, "thorough": 800000, "shards_quick": 5},
+            {"name": "TestC04C", "quick": 8000, "thorough": 600000, "shards_quick": 5},
         ],
     },
     "C11": {
         "level": "exploration",
         "tests": [
-            {"name": "TestC11", "quick": 1500, "thorough": 40000},
+            {"name": "TestC11", "quick": 1500, "thorough": 300000},
             # complete truth table of the enablement rule for one dependency
             {"name": "TestC11Table", "kind": "plain", "quick": 1, "thorough": 1, "shards_quick": 4, "shards_thorough": 8},
         ],
@@ -73,83 +73,83 @@ PROPS = {
     "C17": {
         "level": "exploration",
         "tests": [
-            {"name": "TestC17", "quick": 3000, "thorough": 40000},
+            {"name": "TestC17", "quick": 3000, "thorough": 120000},
         ],
     },
     "C14": {
         "level": "exploration",
         "tests": [
-            {"name": "TestC14", "quick": 1000, "thorough": 25000},
+            {"name": "TestC14", "quick": 1000, "thorough": 80000},
         ],
     },
     "C18": {
         "level": "exploration",
         "tests": [
-            {"name": "TestC18A", "quick": 8000, "thorough": 200000, "shards_quick": 4},
-            {"name": "TestC18B", "quick": 8000, "thorough": 200000, "shards_quick": 4},
-            {"name": "TestC18C", "quick": 20000, "thorough": 500000, "shards_quick": 3},
-            {"name": "TestC18D", "quick": 4000, "thorough": 100000, "shards_quick": 5},
+            {"name": "TestC18A", "quick": 8000, "thorough": 400000, "shards_quick": 4},
+            {"name": "TestC18B", "quick": 8000, "thorough": 400000, "shards_quick": 4},
+            {"name": "TestC18C", "quick": 20000, "thorough": 1000000, "shards_quick": 3},
+            {"name": "TestC18D", "quick": 4000, "thorough": 200000, "shards_quick": 5},
         ],
     },
     "C19": {
         "level": "exploration",
         "tests": [
-            {"name": "TestC19A", "quick": 1600, "thorough": 40000, "shards_quick": 3},
-            {"name": "TestC19B", "quick": 1600, "thorough": 40000, "shards_quick": 3},
-            {"name": "TestC19C", "quick": 1200, "thorough": 24000, "shards_quick": 3},
-            {"name": "TestC19D", "quick": 1200, "thorough": 24000, "shards_quick": 4},
-            {"name": "TestC19E", "quick": 1200, "thorough": 24000, "shards_quick": 3},
+            {"name": "TestC19A", "quick": 1600, "thorough": 80000, "shards_quick": 3},
+            {"name": "TestC19B", "quick": 1600, "thorough": 80000, "shards_quick": 3},
+            {"name": "TestC19C", "quick": 1200, "thorough": 48000, "shards_quick": 3},
+            {"name": "TestC19D", "quick": 1200, "thorough": 48000, "shards_quick": 4},
+            {"name": "TestC19E", "quick": 1200, "thorough": 48000, "shards_quick": 3},
         ],
     },
     "C08": {
         "level": "exploration",
         "tests": [
-            {"name": "TestC08A", "quick": 4000, "thorough": 100000, "shards_quick": 10},
-            {"name": "TestC08B", "quick": 240, "thorough": 3000, "shards_quick": 6},
+            {"name": "TestC08A", "quick": 4000, "thorough": 600000, "shards_quick": 10},
+            {"name": "TestC08B", "quick": 240, "thorough": 12000, "shards_quick": 6},
         ],
     },
     "C05": {
         "level": "exploration",
         "tests": [
-            {"name": "TestC05A", "quick": 480, "thorough": 12000, "shards_quick": 12},
-            {"name": "TestC05ARace", "quick": 60, "thorough": 1200, "race": True, "shards_quick": 6},
-            {"name": "TestC05B", "quick": 400, "thorough": 8000, "shards_quick": 4},
+            {"name": "TestC05A", "quick": 480, "thorough": 36000, "shards_quick": 12},
+            {"name": "TestC05ARace", "quick": 60, "thorough": 2400, "race": True, "shards_quick": 6},
+            {"name": "TestC05B", "quick": 400, "thorough": 24000, "shards_quick": 4},
         ],
     },
     "C09": {
         "level": "exploration",
         "tests": [
-            {"name": "TestC09", "quick": 600, "thorough": 30000, "shards_quick": 10},
-            {"name": "TestC09Race", "quick": 120, "thorough": 2000, "race": True, "shards_quick": 6},
+            {"name": "TestC09", "quick": 600, "thorough": 60000, "shards_quick": 10},
+            {"name": "TestC09Race", "quick": 120, "thorough": 4000, "race": True, "shards_quick": 6},
             {"name": "TestC09Exhaustive", "kind": "plain", "quick": 1, "thorough": 1, "tiers": ("thorough",), "shards_thorough": 12},
         ],
     },
     "C16": {
         "level": "exploration",
         "tests": [
-            {"name": "TestC16A", "quick": 2000, "thorough": 60000, "shards_quick": 8},
-            {"name": "TestC16B", "quick": 2000, "thorough": 40000, "shards_quick": 4},
-            {"name": "TestC16C", "quick": 300, "thorough": 3000, "shards_quick": 4},
+            {"name": "TestC16A", "quick": 2000, "thorough": 120000, "shards_quick": 8},
+            {"name": "TestC16B", "quick": 2000, "thorough": 80000, "shards_quick": 4},
+            {"name": "TestC16C", "quick": 300, "thorough": 6000, "shards_quick": 4},
             # committed seed corpus of the native fuzz targets, replayed as ordinary tests (cwd = package directory)
             {"name": "FuzzC16Expand", "kind": "plain", "quick": 1, "thorough": 1, "cwd_props": True},
             {"name": "FuzzC16Extract", "kind": "plain", "quick": 1, "thorough": 1, "cwd_props": True},
-            {"name": "FuzzC16Expand", "kind": "fuzz", "fuzztime": 90, "tiers": ("thorough",)},
-            {"name": "FuzzC16Extract", "kind": "fuzz", "fuzztime": 90, "tiers": ("thorough",)},
+            {"name": "FuzzC16Expand", "kind": "fuzz", "fuzztime": 180, "tiers": ("thorough",)},
+            {"name": "FuzzC16Extract", "kind": "fuzz", "fuzztime": 180, "tiers": ("thorough",)},
         ],
     },
     "C20": {
         "level": "exploration",
         "tests": [
-            {"name": "TestC20", "quick": 6000, "thorough": 200000},
-        ] + [{"name": n, "kind": "fuzz", "fuzztime": 60, "tiers": ("thorough",)} for n in (
+            {"name": "TestC20", "quick": 6000, "thorough": 600000},
+        ] + [{"name": n, "kind": "fuzz", "fuzztime": 120, "tiers": ("thorough",)} for n in (
             "FuzzC20Strvals", "FuzzC20Values", "FuzzC20Index", "FuzzC20Manifests", "FuzzC20Ignore", "FuzzC20Plugin", "FuzzC20Records", "FuzzC20Schema", "FuzzC20ChartYaml")],
     },
     "C15": {
         "level": "exploration",
         "tests": [
-            {"name": "TestC15A", "quick": 3000, "thorough": 60000, "shards_quick": 8},
-            {"name": "TestC15B", "quick": 4000, "thorough": 60000, "shards_quick": 5},
-            {"name": "TestC15C", "quick": 3000, "thorough": 30000, "shards_quick": 3},
+            {"name": "TestC15A", "quick": 3000, "thorough": 100000, "shards_quick": 8},
+            {"name": "TestC15B", "quick": 4000, "thorough": 100000, "shards_quick": 5},
+            {"name": "TestC15C", "quick": 3000, "thorough": 50000, "shards_quick": 3},
         ],
     },
 }
